@@ -153,6 +153,10 @@ def forms(n, S):
     lut = [1 if i in S else 0 for i in range(N)]
     out["oraclize-lut"] = (f"def fun(a: Qint[{n}]) -> Qint[2]:\n    l = {lut}\n    return l[a]", ("Qint2", 1), q)
     out["element-true"] = (hdr + "    return " + " or ".join(f"a == {s}" for s in S), True, q)
+    # falsy targets: searching g(x) == False / g(x) == 0 is a search like any other
+    out["element-false"] = (hdr + "    return " + " and ".join(f"a != {s}" for s in S), False, q)
+    lut0 = [0 if i in S else 1 for i in range(N)]
+    out["oraclize-zero"] = (f"def fun(a: Qint[{n}]) -> Qint[2]:\n    l = {lut0}\n    return l[a]", ("Qint2", 0), q)
     if len(S) == 1:
         out["oraclize-xor"] = (f"def fun(a: Qint[{n}]) -> Qint[{n}]:\n    return a ^ {S[0] ^ (N - 1)}", (f"Qint{n}", N - 1), q)
     return out
@@ -532,13 +536,13 @@ def run(ctx: Ctx) -> Result:
     t_run = time.time()
     ctx.log(f"[C15] run starts {t_run - ctx.t0:.1f}s after launch")
     order = ("eqchain", "minterm", "interval", "tuple", "booltuple", "qlist", "oraclize-lut", "element-true",
-             "oraclize-xor", "neqchain", "loop")
+             "element-false", "oraclize-zero", "oraclize-xor", "neqchain", "loop")
 
     def forms_for(n, M, S, idx):
         fl = forms(n, S)
         names = [f for f in order if f in fl]
         if n >= 5 and idx % 2 == 1:
-            names = [f for f in names if f != "oraclize-lut"]  # slow to compile for wide lookup tables
+            names = [f for f in names if f not in ("oraclize-lut", "oraclize-zero")]  # slow to compile for wide lookup tables
         return fl, names
 
     # ---- pass 1, systematic (the same for every seed): the whole table, two fixed solution sets per
@@ -555,10 +559,16 @@ def run(ctx: Ctx) -> Result:
                 if len(pending) >= 16:
                     flush(ctx, res, pending)
         fl = forms(n, sets[0])
-        for k in ((1, 2, 3) if n <= 4 else (1, 3)):
+        # explicit iteration counts, incl. counts above the table's defaults (QCircuit.repeat(k) for k >= 5)
+        for k in ((1, 2, 3, 5, 6) if n <= 3 else ((1, 2, 3, 5) if n <= 4 else (1, 3))):
             run_one(ctx, res, n, M, sets[0], "minterm", fl["minterm"], pending, dist_by_S, k=k)
             run_one(ctx, res, n, M, sets[0], "oraclize-lut" if n <= 4 else "loop",
                     fl["oraclize-lut" if n <= 4 else "loop"], pending, dist_by_S, k=k)
+    if not ctx.thorough:
+        # the one table entry with n = 5 whose default iteration count is 5 (the largest of the n <= 5 range)
+        fl5 = forms(5, [21])
+        for name in ("eqchain", "minterm"):
+            run_one(ctx, res, 5, 1, [21], name, fl5[name], pending, dist_by_S)
     flush(ctx, res, pending)
     ctx.log(f"[C15] systematic pass done: {res.evaluations} cases, {time.time() - t_run:.1f}s")
     # ---- pass 2, random solution sets (from ctx.rng), every form; a wall-clock safety net only
